@@ -266,6 +266,9 @@ fn classify(msg: &str) -> String {
         // "token N differs: `x` vs `y` (context…)"
         let x = rest.split('`').nth(1).unwrap_or("");
         let y = rest.split('`').nth(3).unwrap_or("");
+        if x == "⏎" || y == "⏎" {
+            return "second-print-differs|line-structure (asm ops without metadata merge into one op)".to_string();
+        }
         if y == "mut" {
             return "second-print-differs|argument-printed-without-mut-reparses-as-mut".to_string();
         }
